@@ -31,8 +31,10 @@ import types
 import common
 from common import Ctx, Outcome
 
+import c11_barrier as barrier
+
 DRIVERS = ["Reads"]
-TABLES = False
+TABLES = True
 LEVEL = "proof"
 RULE = ("operations are enumerated from the live model: (object, public attribute from dir()) pairs, "
         "dir/repr/html of objects, lists and diagrams, (diagram, format) pairs, validation/metrics/ReqIF/"
@@ -697,6 +699,151 @@ def run_save_level(ctx: Ctx, out: Outcome, label: str, size: str) -> None:
     shutil.rmtree(dir_b, ignore_errors=True)
 
 
+# ------------------------------------------------------------------ write barrier + effect-table tie
+
+
+def open_model_traced(ctx: Ctx, label: str):
+    """Load a corpus model whose elements log every mutator call (c11_barrier)."""
+    setup(ctx)
+    barrier.install()
+    try:
+        return open_model(ctx, label)
+    finally:
+        barrier.uninstall()
+
+
+def static_effects() -> dict:
+    """The generated effect table, as {function id: {(recv, op, key)}} (+ escape / follow rows)."""
+    if "static_effects" not in _ENV:
+        import gen_effects
+
+        d = gen_effects.collect()
+        idx: dict = {}
+        for f, effs in d["effects"].items():
+            idx[f] = {(r if isinstance(r, str) else "localv", o, k) for r, o, k, _ln in effs}
+        _ENV["static_effects"] = idx
+        _ENV["static_tables"] = d["tables"]
+    return _ENV["static_effects"]
+
+
+def covered(static: dict, acc: tuple) -> bool:
+    fid, recv, op, key = acc
+    rows = static.get(fid)
+    if rows is None:
+        return False
+    if op == "escape":
+        return any(o == "escape" and k == key for _r, o, k in rows)
+    if recv == "loader":
+        return any(r == "loader" and o in ("follow", "field") for r, o, _k in rows)
+    for r, o, k in rows:
+        if r != recv:
+            continue
+        same_op = o == op or {o, op} <= {"get", "index"} and recv == "attrib" and False
+        if same_op and (k == key or k == "*"):
+            return True
+    return False
+
+
+def run_effects_tie(ctx: Ctx, out: Outcome, label: str, m) -> None:
+    """Record what the parser reads while every diagram of the model is parsed and queried; every recorded access must
+    be a row of the generated effect table (the table is what the Lean obligations are about)."""
+    static = static_effects()
+    barrier.ACCESSES.clear()
+    barrier.WRITES.clear()
+    from capellambse import aird
+
+    barrier.RECORD["on"] = True
+    try:
+        for d in list(m.diagrams):
+            for params in ({}, {"sorted_exchangedItems": True}):
+                d.invalidate_cache()
+                try:
+                    aird.parse_diagram(m._loader, d._element, **params)
+                except Exception as e:  # noqa: BLE001
+                    out.hit("effects:parse-raised:" + type(e).__name__)
+            for a in ("nodes", "viewpoint", "target", "type", "representation_path"):
+                try:
+                    v = getattr(d, a)
+                    if a == "nodes":
+                        len(v)
+                except Exception as e:  # noqa: BLE001
+                    out.hit("effects:attr-raised:" + type(e).__name__)
+            try:
+                flt = d.filters
+                list(flt)
+                len(flt)
+                "x" in flt
+            except Exception as e:  # noqa: BLE001
+                out.hit("effects:filters-raised:" + type(e).__name__)
+        list(aird.enumerate_descriptors(m._loader))
+    finally:
+        barrier.RECORD["on"] = False
+    for acc, n in sorted(barrier.ACCESSES.items()):
+        out.case(("effects",) + acc, {"effect": list(acc), "times": n} if len(out.samples) < 5 else None, True)
+        out.hit("effects:" + acc[2], 1)
+        if not covered(static, acc):
+            out.disagree("effects", {"model": label, "access": list(acc), "times": n}, "performed by the implementation",
+                         "no such row in the generated effect table")
+    out.extra.setdefault("effects_functions_exercised", set()).update(a[0] for a in barrier.ACCESSES)
+    if barrier.WRITES:
+        for w in barrier.WRITES[:3]:
+            dsc = barrier.describe(w)
+            out.find(f"writes|render|{dsc['elem']}@{dsc['key']}|{dsc['op']}",
+                     f"[{label}] parsing/querying the diagrams called a mutator on a model tree: {dsc}",
+                     {"kind": "barrier-render", "model": label})
+    out.traces_validated += 1
+
+
+def run_barrier(ctx: Ctx, out: Outcome, label: str, size: str) -> None:
+    """Write barrier: a seeded sample of the read surface on a model whose lxml mutators are wrapped. A write that is
+    undone before the next digest is seen here (and only here)."""
+    m = open_model_traced(ctx, label)
+    run_effects_tie(ctx, out, label, m)
+    rng = ctx.rng
+    crashes: list = []
+    allops = gen_ops(ctx, m, label, size, crashes)
+    keep = [op for op in allops if op["k"].startswith("dg.") or op["k"] in ("validate", "metrics", "reqif", "dglist", "search", "findrefs")]
+    rest = [op for op in allops if op not in keep]
+    n = ctx.pick(250, 4000) if size == "small" else ctx.pick(400, 6000)
+    if not ctx.thorough and size == "big":
+        keep = [op for op in keep if op["k"] != "dg.attr" or not op.get("deep")] or keep
+    ops = keep + rng.sample(rest, min(len(rest), n))
+    rng.shuffle(ops)
+    ex = Exec(m, label, None)
+    snap = fast_snap(m)
+    roots = copy_roots(m)
+    stats = {"ops": 0, "ops_with_writes": 0, "mutator_calls": 0}
+    for op in ops:
+        barrier.WRITES.clear()
+        try:
+            ex.run(op)
+        except common.InfraError:
+            raise
+        except Exception:  # noqa: BLE001
+            pass
+        stats["ops"] += 1
+        out.case((label, "barrier", common.sha(op)), None, True)
+        if not barrier.WRITES:
+            continue
+        writes = [barrier.describe(w) for w in barrier.WRITES[:20]]
+        stats["ops_with_writes"] += 1
+        stats["mutator_calls"] += len(barrier.WRITES)
+        s2 = fast_snap(m)
+        if s2 != snap:
+            report_mutation(out, label, op, model_diff(roots, m), "write barrier")
+            snap, roots = s2, copy_roots(m)
+        else:
+            for dsc in writes[:3]:
+                out.find(f"writes-transient|{op_class(op)}|{dsc['elem']}@{dsc['key']}|{dsc['op']}",
+                         f"[{label}] read-only operation {op} called a mutator on a model tree ({dsc}); the serialisation is "
+                         f"unchanged afterwards (undone or idempotent), so only the barrier sees it",
+                         {"kind": "transient", "model": label, "op": op, "writes": writes[:5]})
+    out.hit("barrier:ops", stats["ops"])
+    out.hit("barrier:ops-with-mutator-calls", stats["ops_with_writes"])
+    out.extra.setdefault("barrier", {})[label] = stats
+    out.traces_validated += 1
+
+
 # ------------------------------------------------------------------ PVMT (documented exception)
 
 PVMT_OK_TAGS = {"ownedPropertyValueGroups", "ownedPropertyValuePkgs", "ownedPropertyValues"}
@@ -1060,6 +1207,7 @@ def run(ctx: Ctx) -> Outcome:
         phase[name] = round(phase.get(name, 0.0) + time.time() - t0, 2)
         return r
 
+    barrier_big = ctx.rng.choice([m[0] for m in MODELS if m[3] == "big"])
     for label, _entry, _res, size in sel:
         st = timed("reads", run_reads, ctx, out, label, size)
         model = st.pop("model")
@@ -1077,6 +1225,8 @@ def run(ctx: Ctx) -> Outcome:
         del model
         if size == "small" or ctx.thorough or label == "mm52":
             timed("save-level", run_save_level, ctx, out, label, size)
+        if size == "small" or ctx.thorough or label == barrier_big:
+            timed("barrier", run_barrier, ctx, out, label, size)
     out.extra["seconds_by_phase"] = phase
     # synthetic-free correspondence: factories
     reqs = [factory_request(c) for c in fcases]
@@ -1110,6 +1260,12 @@ def run(ctx: Ctx) -> Outcome:
                     out.disagree("store.run", {"model": label, "op": o}, w, mv)
             out.traces_validated += 1
     out.extra["per_model"] = per_model
+    if "effects_functions_exercised" in out.extra:
+        ex_f = sorted(out.extra["effects_functions_exercised"])
+        out.extra["effects_functions_exercised"] = ex_f
+        reach_not_run = sorted(f for f in static_effects() if f not in ex_f and static_effects()[f]
+                               and any(r in ("xml", "attrib") for r, _o, _k in static_effects()[f]))
+        out.extra["effects_functions_with_tree_access_not_exercised"] = reach_not_run
     out.extra["formats"] = formats()
     out.extra["factory_cases"] = len(fcases)
     out.extra["input_distribution"] = {k: v for k, v in sorted(out.branches.items()) if k.startswith("op:")}
@@ -1218,6 +1374,21 @@ def replay(ctx: Ctx, case: dict):
             run_save_level(ctx, o, label, size)
         else:
             run_reads(ctx, o, label, size)
+        return o.findings[0].what if o.findings else None
+    if kind == "transient":
+        m = open_model_traced(ctx, label)
+        ex = Exec(m, label, None)
+        barrier.WRITES.clear()
+        try:
+            ex.run(case["op"])
+        except Exception:  # noqa: BLE001
+            pass
+        if barrier.WRITES:
+            return f"{case['op']} called mutators on a model tree: {[barrier.describe(w) for w in barrier.WRITES[:5]]}"
+        return None
+    if kind == "barrier-render":
+        o = Outcome()
+        run_effects_tie(ctx, o, label, open_model_traced(ctx, label))
         return o.findings[0].what if o.findings else None
     if kind in ("pvmt", "pvmt2"):
         o = Outcome()
